@@ -170,7 +170,9 @@ DRIVER_NOTE = (" Second tie (translator): pyhms/tree.py's run / run_step / run_m
                "construct is which primitive effect) and its list of calls that touch no modelled state.")
 STOPS_NOTE = (" The shipped stop conditions (gsc.py: RootStopped, AllStopped, SingularProblemEvalLimitReached, FitnessEvalLimitReached, NoActiveNonrootDemes; usc.py: MetaepochLimit, "
               "DontStop, DontRun; lsc.py: AllChildrenStopped; with DemeTree.all_demes / n_evaluations) are translated as well (coq/Gen/GenStops.v) and proved to answer, in every state "
-              "whose demes sit on configured levels, exactly the verdict the machine computes (Proofs/GenEquivStops.v); float-valued conditions stay oracles.")
+              "whose demes sit on configured levels, exactly the verdict the machine computes (Proofs/GenEquivStops.v); FitnessEvalLimitReached's normalisation of its `weights` argument (None / strategy name / list; "
+              "_transform_weights under __call__'s guard, with the number of levels it is given) is translated too and proved equal to the weights the machine is configured "
+              "with (effective_weights_ok, weights_nlevels_ok; 'equal' = the plain total, 'root' = the root level only); float-valued conditions stay oracles.")
 
 
 def install(g, pid, *, text, note, technique, quick, thorough, mons=None, forces=None, nontrivial=None, rule="", extra_checks=None,
